@@ -1405,3 +1405,111 @@ def rule_file6c(prog, rep, tier, anchor="__main__.main"):
                 rep.holds("FILE-6c", "usage error %s precedes all work" % src(c, 50), loc(prog, c), "")
     if n == 0:
         raise AnalysisError("FILE-6c: main() raises no usage error at all")
+
+
+# ---------------------------------------------------------------------------- TARGET-COVER (C09)
+def rule_target_cover(prog, rep, tier, entry="conformance.ground_truth", truth_param="truth_file"):
+    """TARGET-COVER (C09): every file the caller listed for a kind is handed to the per-file worker - the only file that may be
+    left out is the one that *is* the truth file (a comparison of the two names).  The sequence the worker is mapped over is the
+    list read from the namespace, whole: not a slice or an index of it, not filtered, not shortened in place; and the call of the
+    worker stands under no condition on the file (or its position) other than that comparison."""
+    fi = prog.fn(entry)
+    rs = reaches_sink(prog)
+    truth_names = derived(fi.node, {truth_param})
+    n = 0
+    for node in ast.walk(fi.node):
+        if not isinstance(node, ast.Call) or not isinstance(node.func, (ast.Name, ast.Attribute)):
+            continue
+        tl = [t for t in prog.resolve_expr_fn(node.func, node) if isinstance(t, FunctionInfo) and id(t) in rs and not t.qualname.startswith("emit.")]
+        if not tl:
+            continue
+        amap = call_arg_map(node, tl[0])
+        pa = next((amap[k] for k in ("filename", "file", "path", "output_filename") if k in amap), None)
+        if pa is None:
+            continue
+        # the loop the call runs in
+        loops, p, child = [], getattr(node, "_parent", None), node
+        while p is not None and p is not fi.node:
+            if isinstance(p, ast.Lambda):
+                mp = getattr(p, "_parent", None)
+                if isinstance(mp, ast.Call) and mp.args and mp.args[0] is p and len(mp.args) >= 2 and isinstance(mp.func, ast.Name) and mp.func.id == "map":
+                    loops.append((mp.args[1], {a.arg for a in p.args.args}, mp))
+            elif isinstance(p, (ast.For, ast.AsyncFor)):
+                loops.append((p.iter, names_in(p.target), p))
+            elif isinstance(p, (ast.ListComp, ast.GeneratorExp, ast.SetComp, ast.DictComp)):
+                for g in p.generators:
+                    loops.append((g.iter, names_in(g.target), p))
+            child, p = p, getattr(p, "_parent", None)
+        floop = [l for l in loops if names_in(pa) & l[1]]
+        if not floop:
+            continue
+        n += 1
+        it, loop_vars, holder = floop[0]
+        inst = "%s: %s over %s" % (fi.qualname, src(node.func, 30), src(it, 40))
+        probs = []
+
+        def whole(e, depth=0):
+            """None when e denotes the namespace's list as it was given, else what is done to it"""
+            if isinstance(e, ast.Call) and isinstance(e.func, ast.Name) and e.func.id in ("list", "tuple", "iter", "sorted", "reversed") and len(e.args) == 1:
+                return whole(e.args[0], depth)
+            if isinstance(e, ast.Call) and isinstance(e.func, ast.Name) and e.func.id == "enumerate" and e.args:
+                return whole(e.args[0], depth)
+            if isinstance(e, ast.Call) and isinstance(e.func, ast.Name) and e.func.id == "getattr":
+                return None
+            if isinstance(e, ast.Attribute):
+                return None
+            if isinstance(e, ast.BoolOp) and isinstance(e.op, ast.Or):
+                return whole(e.values[0], depth)
+            if isinstance(e, ast.IfExp):
+                return whole(e.body, depth) or whole(e.orelse, depth)
+            if isinstance(e, ast.Subscript):
+                return "only a part of the list is used (%s)" % src(e, 40)
+            if isinstance(e, ast.Call) and isinstance(e.func, ast.Name) and e.func.id in ("filter", "islice", "takewhile", "dropwhile"):
+                f = e.args[0] if e.args else None
+                if e.func.id == "filter" and isinstance(f, ast.Lambda) and any(_cmp_guard_ok(f.body, True, truth_names, {a.arg for a in f.args.args}) for _ in (0,)):
+                    return whole(e.args[1], depth)
+                return "files are dropped from the list (%s)" % src(e, 50)
+            if isinstance(e, (ast.ListComp, ast.GeneratorExp)):
+                for g in e.generators:
+                    for c in g.ifs:
+                        if not _cmp_guard_ok(c, True, truth_names, names_in(g.target)):
+                            return "files are dropped from the list (`if %s`)" % src(c, 40)
+                return whole(e.generators[0].iter, depth)
+            if isinstance(e, ast.Name) and depth < 4:
+                if e.id in fi.params():
+                    return None
+                defs = [st for st in ast.walk(fi.node) if isinstance(st, ast.Assign) and any(isinstance(t, ast.Name) and t.id == e.id for t in st.targets)]
+                for d in defs:
+                    # every (re)definition counts: `files = files[1:]` under a condition still drops a file when it runs
+                    if isinstance(d.value, ast.Name) and d.value.id == e.id:
+                        continue
+                    w = whole(d.value, depth + 1)
+                    if w is not None:
+                        return w
+                # shortened in place
+                for c in ast.walk(fi.node):
+                    if isinstance(c, ast.Call) and isinstance(c.func, ast.Attribute) and isinstance(c.func.value, ast.Name) and c.func.value.id == e.id \
+                            and c.func.attr in ("pop", "remove", "clear"):
+                        return "the list is shortened in place (%s)" % src(c, 40)
+                    if isinstance(c, ast.Delete) and any(isinstance(t, ast.Subscript) and isinstance(t.value, ast.Name) and t.value.id == e.id for t in c.targets):
+                        return "the list is shortened in place (%s)" % src(c, 40)
+                return None
+            return None
+        w = whole(it)
+        if w is not None:
+            probs.append(("part-of-list", w))
+        for t, pol in expr_guards(node, stop=fi.node):
+            if _cmp_guard_ok(t, pol, truth_names, derived(fi.node, names_in(pa)) | names_in(pa)):
+                continue
+            mentioned = names_in(t) & (loop_vars | derived(fi.node, loop_vars))
+            if mentioned:
+                probs.append(("conditional", "the call stands under `%s`, a condition on the file other than being the truth file" % src(t, 50)))
+        if probs:
+            for kind, why in probs[:1]:
+                rep.violation(Finding("TARGET-COVER", fi.qualname, "target-skipped:%s" % kind,
+                                      "%s: a file the caller listed is not conformed (and, absent, not created) although it is not the truth file - "
+                                      "only the comparison with %s may leave a file out" % (why, truth_param), loc(prog, node)))
+        else:
+            rep.holds("TARGET-COVER", inst, loc(prog, node), "mapped over the whole list from the namespace; the only condition is the comparison with the truth file")
+    if n == 0:
+        raise AnalysisError("TARGET-COVER: no per-file call of a writing worker found in %s" % entry)
